@@ -4,6 +4,7 @@ package main
 
 import (
 	"encoding/json"
+	"fmt"
 	"os"
 	"path/filepath"
 	"sort"
@@ -23,6 +24,8 @@ type Case struct {
 	// Runs: each run is a list of 1-based file indices analysed, in that order, through AnalysisFiles.
 	// An empty list of runs means: one run of AnalysisPath over the whole rendered directory.
 	Runs [][]int `json:"runs"`
+	// Fresh[i]: run i is executed in a fresh OS process (its result is compared with the other runs all the same)
+	Fresh []bool `json:"fresh"`
 }
 
 type KVObs struct {
@@ -78,6 +81,7 @@ type Record struct {
 	Files    []javagen.File  `json:"files"`
 	Layout   int             `json:"layout"`
 	Runs     [][]int         `json:"runs"`
+	Fresh    []bool          `json:"fresh"`
 	Facts    []javagen.Facts `json:"facts"`
 	Observed []RunObs        `json:"observed"`
 }
@@ -141,7 +145,10 @@ func one(raw json.RawMessage) interface{} {
 	}
 	defer os.RemoveAll(scratch)
 	root := filepath.Join(scratch, "proj")
-	rec := Record{Case: c.Case, Files: c.Files, Layout: c.Layout, Runs: c.Runs, Facts: []javagen.Facts{}, Observed: []RunObs{}}
+	if c.Fresh == nil {
+		c.Fresh = []bool{}
+	}
+	rec := Record{Case: c.Case, Files: c.Files, Layout: c.Layout, Runs: c.Runs, Fresh: c.Fresh, Facts: []javagen.Facts{}, Observed: []RunObs{}}
 	paths := make([]string, len(c.Files))
 	for i, f := range c.Files {
 		text, facts := javagen.Render(f, c.Layout)
@@ -191,7 +198,22 @@ func one(raw json.RawMessage) interface{} {
 		app := javaapp.NewJavaIdentifierApp()
 		fixedIdent = app.AnalysisFiles(all)
 	})
-	for _, run := range c.Runs {
+	for ri, run := range c.Runs {
+		if ri < len(c.Fresh) && c.Fresh[ri] {
+			sub := Case{Case: c.Case, Files: c.Files, Layout: c.Layout, Runs: [][]int{run}}
+			raw, err := lib.Fresh(sub)
+			var sr Record
+			if err == nil {
+				err = json.Unmarshal(raw, &sr)
+			}
+			if err != nil || len(sr.Observed) != 1 {
+				po := PassObs{Panic: true, Types: []TypeObs{}, Note: fmt.Sprint("fresh run failed: ", err)}
+				rec.Observed = append(rec.Observed, RunObs{Ident: po, Full: po})
+			} else {
+				rec.Observed = append(rec.Observed, sr.Observed[0])
+			}
+			continue
+		}
 		var files []string
 		for _, k := range run {
 			files = append(files, paths[k-1])
@@ -219,7 +241,10 @@ func abnormal(raw json.RawMessage, timeout bool, stderr string) interface{} {
 	if c.Runs == nil {
 		c.Runs = [][]int{}
 	}
-	rec := Record{Case: c.Case, Files: c.Files, Layout: c.Layout, Runs: c.Runs, Facts: []javagen.Facts{}, Observed: []RunObs{}}
+	if c.Fresh == nil {
+		c.Fresh = []bool{}
+	}
+	rec := Record{Case: c.Case, Files: c.Files, Layout: c.Layout, Runs: c.Runs, Fresh: c.Fresh, Facts: []javagen.Facts{}, Observed: []RunObs{}}
 	for _, f := range c.Files {
 		_, facts := javagen.Render(f, c.Layout)
 		rec.Facts = append(rec.Facts, facts)
